@@ -353,3 +353,39 @@ Proof.
     destruct (arg_path a); discriminate.
   - destruct (arg_path a); [discriminate|]. destruct ce; discriminate.
 Qed.
+
+(* ------------------------------------------------------------------ examples used by props/C14.v *)
+Lemma sample_toml_resolves_lemma : exists o v q,
+  resolve {| arg_path := None; arg_toml := Some "Solstat.toml" |}
+          (Some {| t_path := toml_sample_path; t_optimizations := toml_names cat_opt;
+                   t_vulnerabilities := toml_names cat_vul; t_qa := toml_names cat_qa |}) false
+  = Run toml_sample_path o v q /\
+  List.length o = List.length (toml_names cat_opt) /\ List.length v = List.length (toml_names cat_vul) /\
+  List.length q = List.length (toml_names cat_qa).
+Proof. vm_compute. do 3 eexists. repeat split. Qed.
+
+Lemma flag_beats_toml_path_lemma : exists o v q,
+  resolve {| arg_path := Some "src"; arg_toml := Some "cfg.toml" |}
+          (Some {| t_path := "./lib"; t_optimizations := rev (doc_names cat_opt);
+                   t_vulnerabilities := doc_names cat_vul ++ doc_names cat_vul; t_qa := doc_names cat_qa |}) true
+  = Run "src" o v q /\ List.length v = (2 * List.length (doc_names cat_vul))%nat.
+Proof. vm_compute. do 3 eexists. repeat split. Qed.
+
+Lemma unknown_name_example_lemma :
+  has_unknown {| t_path := "."; t_optimizations := []; t_vulnerabilities := [" "]; t_qa := [] |} /\
+  resolve {| arg_path := Some "src"; arg_toml := Some "cfg.toml" |}
+          (Some {| t_path := "."; t_optimizations := []; t_vulnerabilities := [" "]; t_qa := [] |}) true
+  = PanicExit "Unrecgonized vulnerability".
+Proof.
+  split; [| vm_compute; reflexivity].
+  right. left. exists " ". split; [left; reflexivity | vm_compute; reflexivity].
+Qed.
+
+Lemma casing_example_lemma : casing_of "sstore" "SsToRe" /\ forall c, str_to c "SsToRe" = str_to c "sstore".
+Proof.
+  split; [| intro c; reflexivity].
+  repeat first [ apply co_nil | apply co_cons ];
+    first [ apply sl_same | apply (sl_upper "S"%char); vm_compute; split; discriminate
+          | apply (sl_upper "T"%char); vm_compute; split; discriminate
+          | apply (sl_upper "R"%char); vm_compute; split; discriminate ].
+Qed.
